@@ -275,6 +275,14 @@ fn main() {
                 good = compare_state(&mut rep, &TOL, "box", idx, step, "predict", &m, &c, &kf, None, 0.0, &ctx);
                 rep.count("box_steps_compared");
             }
+            if pgood && step % 23 == 0 {
+                // the vector's second point is re-initiated: from now on its covariance has a different age than the first
+                let fresh = Point2::from([py as f32, px as f32]);
+                pst2 = pf.initiate(&fresh);
+                let fs = vf.initiate(&[fresh]);
+                vst[1] = fs[0];
+                rep.count("vector_filter_points_reinitiated");
+            }
             if pgood {
                 pkf.predict(&[wp, wp, wv, wv]);
                 let (m0, c0) = pst.verif_raw();
@@ -291,7 +299,9 @@ fn main() {
                 pgood = compare_state(&mut rep, &TOL, "point", idx, step, "predict", &m, &c, &pkf, None, 0.0, &ctx);
                 rep.count("point_steps_compared");
             }
-            let z = mk(px + rng.normal() * 0.02 * hcur, py + rng.normal() * 0.02 * hcur, ang, asp, hcur * rng.uniform(0.99, 1.01));
+            // a rotated track occasionally receives an axis-aligned measurement (angle None means angle 0)
+            let zang = if ang != 0.0 && rng.chance(0.08) { 0.0 } else { ang };
+            let z = mk(px + rng.normal() * 0.02 * hcur, py + rng.normal() * 0.02 * hcur, zang, asp, hcur * rng.uniform(0.99, 1.01));
             hh.f32(z.xc).f32(z.yc).f32(z.height);
             // distance of this measurement from the library's own current state
             if good {
